@@ -294,7 +294,8 @@ theorem numeric_no_silent_change (v : Num) (t : NT) (r : Num) (hwf : WF v) (hdev
     with the right count the callee receives the element-wise conversions. -/
 theorem arity_fixed (L : Leaf) (ins : List GT) (args : List JV) :
     callWrapper L ⟨ins, false⟩ args =
-      if args.length ≠ ins.length then .rangeErr else convArgs L args ins := by
+      if args.length ≠ ins.length then .rangeErr
+      else finishCall (deferredIn L args ins) (convArgs L args ins) := by
   simp [callWrapper]
 
 /-- **C16.arity** (variadic signatures): fewer than the fixed parameters is a RangeError. -/
@@ -307,10 +308,12 @@ theorem arity_variadic (L : Leaf) (ins : List GT) (args : List JV) (h : args.len
 theorem variadic_shape (L : Leaf) (ins : List GT) (args : List JV) (h : ¬ args.length < ins.length - 1)
     (hk : (args.drop (ins.length - 1)).length ≠ 1) :
     callWrapper L ⟨ins, true⟩ args =
-      (convArgs L (args.take (ins.length - 1)) (ins.take (ins.length - 1))).bind (fun fixed =>
-        (convAll L (args.drop (ins.length - 1)) (ins.getLastD .any)).map (fun gs => fixed ++ [.slice (GVs.ofList gs)])) := by
+      finishCall (deferredIn L (args.take (ins.length - 1)) (ins.take (ins.length - 1)) ||
+          (((args.drop (ins.length - 1)).length ≠ 1) && (args.drop (ins.length - 1)).any (fun a => deferredPanic L a (ins.getLastD .any))))
+      ((convArgs L (args.take (ins.length - 1)) (ins.take (ins.length - 1))).bind (fun fixed =>
+        (convAll L (args.drop (ins.length - 1)) (ins.getLastD .any)).map (fun gs => fixed ++ [.slice (GVs.ofList gs)]))) := by
   simp only [callWrapper, h, if_false, Bool.true_eq_false, not_true_eq_false, not_false_eq_true, if_true]
-  congr 1
+  congr 2
   funext fixed
   cases hd : args.drop (ins.length - 1) with
   | nil => rfl
@@ -325,8 +328,10 @@ theorem variadic_last_is_slice (L : Leaf) (ins : List GT) (args : List JV) (a : 
     (h : ¬ args.length < ins.length - 1) (hd : args.drop (ins.length - 1) = [a])
     (hs : conv L a (.slice (ins.getLastD .any)) = .ok s) :
     callWrapper L ⟨ins, true⟩ args =
-      (convArgs L (args.take (ins.length - 1)) (ins.take (ins.length - 1))).bind (fun fixed => .ok (fixed ++ [s])) := by
-  simp only [callWrapper, h, if_false, Bool.true_eq_false, not_true_eq_false, not_false_eq_true, if_true, hd, hs]
+      finishCall (deferredIn L (args.take (ins.length - 1)) (ins.take (ins.length - 1)))
+      ((convArgs L (args.take (ins.length - 1)) (ins.take (ins.length - 1))).bind (fun fixed => .ok (fixed ++ [s]))) := by
+  simp only [callWrapper, h, if_false, Bool.true_eq_false, not_true_eq_false, not_false_eq_true, if_true, hd, hs,
+    List.length_singleton, ne_eq, decide_false, Bool.false_and, Bool.or_false]
 
 /-! ### containers: aliasing invariant of bridged slices -/
 
